@@ -353,7 +353,7 @@ def run(ck):
     ck.rule = ('A/B: seeded level pairs (node counts, quadrature types, space dims, finter, inherited tau, exact-rational vs float-image Rcoll/Pcoll); '
                'C: exact 2-3 level controller iterations started at the collocation solution; D: float transfer classes; distinct = configuration tuple')
     ck.check_props(required=['C10_coarse_defect_is_restricted_fine_defect', 'C10_prolong_zero_correction', 'C10_two_level_cycle_fixed_point'])
-    cases = part_AB(ck, rng, 300 if thorough else 60)
+    cases = part_AB(ck, rng, 1500 if thorough else 60)
     ck.log('A/B: %d real restrict/prolong cases run' % len(cases))
     chunk = 5
     import concurrent.futures as cf
@@ -381,7 +381,7 @@ def run(ck):
                          match={'kind': 'correspondence'}, no_input=True)
     ck.obligation('exact correspondence model = BaseTransfer on %d restrict/prolong cases' % len(cases), nd == 0)
     ck.log('model evaluated')
-    part_C(ck, rng, 200 if thorough else 40)
+    part_C(ck, rng, 1000 if thorough else 40)
     ck.log('part C done')
     part_D(ck, rng, thorough)
     ck.log('part D done')
